@@ -829,6 +829,16 @@ def run_ec(desc):
     if ret or (e is not None and e[0]) or key2.test_info.weak:
       raise Violation('weakcurve:unknown-curve-flagged', **ctx)
   if known:
+    # the same key judged after a flagged key in one batch (one Check call): verdicts are per artifact
+    c192 = ecdsa_gen.C.CURVE_SECP192R1
+    first = art.ec_key(c192, *ecdsa_gen.mul_g(c192, 5))
+    _verdicts(_inst('CheckWeakCurve', ec_single_checks.CheckWeakCurve),
+              [first, art.ec_key(ct, x, y, pad=pad)], [True, weak_curve], 'weakcurve-in-batch', **ctx)
+    bad = art.ec_key(ct, 1, 1)
+    _verdicts(_inst('CheckValidECKey', ec_single_checks.CheckValidECKey),
+              [bad, art.ec_key(ct, x, y, pad=pad)], [not rc.valid_public((1, 1)), invalid],
+              'ecvalid-in-batch', **ctx)
+  if known:
     curve = ec_util.CURVE_FACTORY[ct]
     for conv in (int, gmpy.mpz):
       got = libcall(curve.IsValidPublicKey, (conv(x), conv(y)))
